@@ -407,3 +407,47 @@ func C14_MetaDataDecodeTotal() {
 	verif.Reach("rejected", err != nil)
 	verif.ObserveBool("ok", err == nil)
 }
+
+func init() { reg("C14_LengthPrefixBoundaries", C14_LengthPrefixBoundaries) }
+
+// C14_LengthPrefixBoundaries: field and nested-message lengths around the one-byte/two-byte
+// varint boundary (127/128), independently for the fields that precede the nested metadata and
+// for the metadata itself, so that every length prefix is sized from its own length.
+func C14_LengthPrefixBoundaries() {
+	verif.AllocBound(700)
+	propLens := []int{0, 119, 120, 121, 122, 127, 128, 130}
+	nameLens := []int{1, 123, 124, 125, 126, 127, 128, 130}
+	t := &esdt.ESDigitalToken{Type: 1, Value: big.NewInt(int64(verif.Choose("value", 2)))}
+	t.Properties = verif.Bytes("props", propLens[verif.Choose("props.len", len(propLens))])
+	if verif.Bool("hasMeta") {
+		t.TokenMetaData = &esdt.MetaData{Nonce: 1, Name: verif.Bytes("name", nameLens[verif.Choose("name.len", len(nameLens))])}
+		if verif.Bool("hasCreator") {
+			t.TokenMetaData.Creator = verif.Bytes("creator", 32)
+		}
+	}
+	if verif.Bool("hasReserved") {
+		t.Reserved = verif.Bytes("reserved", 1)
+	}
+	size := t.Size()
+	ref := refToken(t)
+	verif.Assert("size-equals-reference-length", size == len(ref))
+	var b []byte
+	var err error
+	panicked := verif.Try(func() { b, err = t.Marshal() })
+	verif.Assert("marshal-does-not-panic", !panicked)
+	if panicked {
+		return
+	}
+	verif.Assert("marshal-ok", err == nil)
+	verif.Assert("matches-reference", verif.And(len(b) == len(ref), verif.BytesEq(b, ref)))
+	u := &esdt.ESDigitalToken{}
+	err = u.Unmarshal(b)
+	verif.Assert("unmarshal-ok", err == nil)
+	verif.Assert("roundtrip-props", verif.And(len(u.Properties) == len(t.Properties), verif.BytesEq(u.Properties, t.Properties)))
+	verif.Assert("roundtrip-metadata", metaRoundEq(t.TokenMetaData, u.TokenMetaData))
+	verif.Assert("roundtrip-reserved", verif.And(len(u.Reserved) == len(t.Reserved), verif.BytesEq(u.Reserved, t.Reserved)))
+	if t.TokenMetaData != nil {
+		verif.Reach("two-byte-nested-prefix", len(t.TokenMetaData.Name) >= 128)
+	}
+	verif.Reach("two-byte-props-prefix", len(t.Properties) >= 128)
+}
